@@ -38,7 +38,7 @@ CONSTANTS MaxNest,    \* maximal number of open frames
           MaxStk,     \* maximal operand stack length
           MaxHist,    \* bound on the number of operations
           Ops,        \* enabled operation families (a set of strings), see Next
-          Leak        \* "none" | "EndBlock" | "Else"
+          Leak        \* "none" | "Restore" (End forgets to restore the scope depth: DepthOK and EndRestores must fail) | "EndBlock" | "Else"
 
 VARIABLES stk, frames, scope, sdepth, nscope, fn, nfn, labels, nvar, hist, last
 vars == <<stk, frames, scope, sdepth, nscope, fn, nfn, labels, nvar, hist, last>>
@@ -186,7 +186,7 @@ Else    == /\ Enabled("if") /\ Top.k = "ifb" /\ Top.st = "then" /\ AtBase
               ELSE scope' = nscope + 1 /\ nscope' = nscope + 1 /\ UNCHANGED sdepth
            /\ UNCHANGED <<stk, fn, nfn, labels, nvar>> /\ Rec("Else", "")
 \* closing: restore what the frame recorded
-Restore(f) == scope' = f.oscope /\ sdepth' = f.odepth
+Restore(f) == scope' = f.oscope /\ (IF Leak = "Restore" THEN UNCHANGED sdepth ELSE sdepth' = f.odepth)
 Trunc(f)   == IF Leak = "EndBlock" THEN stk ELSE SubSeq(stk, 1, f.base)
 Close2(op, a) ==   \* closes the body frame and the statement frame below it; the statement is emitted in the enclosing frame
   LET outer == frames[Len(frames) - 1]
